@@ -50,6 +50,7 @@ type Config struct {
 
 	BrokerMethod string   `json:"broker_method,omitempty"` // "A" (deliver on PUBLISH) | "B" (deliver on PUBREL)
 	EarlyReply   bool     `json:"early_reply,omitempty"`   // the broker's answer is in the read buffer before Write returns (single-writer scenarios only)
+	DeafToPings  bool     `json:"deaf_to_pings,omitempty"` // a silent period swallows PINGREQ/PINGRESP only: the peer keeps talking (acknowledgements, PUBLISHes) but no longer answers pings
 	HoldAcks     bool     `json:"hold_acks,omitempty"`     // broker withholds all acks except CONNACK/PINGRESP; Script releases them
 	AutoPubRel   bool     `json:"auto_pubrel,omitempty"`   // broker answers PUBREC from the client with PUBREL
 	LatC2BUs     int64    `json:"lat_c2b_us"`
